@@ -80,6 +80,11 @@ enum Rewrite {
     /// smaller than the owner's label count, so the signature still verifies "as an expansion",
     /// but RFC 4035 5.4 forbids reading such an NSEC as a statement about its owner
     RelabelWildcardDenial(u8),
+    /// C09: a denial for the query name (0 NXDOMAIN, 1 NODATA) built from the parent's genuine
+    /// SOA and NSEC3-typed RRsets that a *signed child zone* (z.example., delegated with a DS)
+    /// holds at `<hash>.z.example.` and signs with its own key: validly signed records that do
+    /// not belong to the zone the response speaks for
+    ChildZoneProof(u8),
 }
 
 #[derive(Serialize, Deserialize, Clone, Debug)]
@@ -240,6 +245,10 @@ fn zone_spec(p: &Plan, alt: bool) -> ZoneSpec {
     if let Some(d) = &p.delegation {
         records.push(Record::from_rdata(uname(d), 300, RData::NS(NS(n("ns.elsewhere.")))));
     }
+    if uses_child_zone(p) {
+        records.push(Record::from_rdata(n("z.example."), 300, RData::NS(NS(n("ns.z.example.")))));
+        records.push(super::dnssec::ds_for(&KeyRef::ed(1), &n("z.example.")));
+    }
     let nx = if p.nsec3 {
         let mut salt: Vec<u8> = (0..p.salt_len).map(|i| 0xA0 + i).collect();
         if alt {
@@ -250,6 +259,92 @@ fn zone_spec(p: &Plan, alt: bool) -> ZoneSpec {
         Nx::Nsec
     };
     ZoneSpec { origin: o, records, nx, keys: vec![KeyRef::ed(0)], sig_duration_s: 86_400 }
+}
+
+fn uses_child_zone(p: &Plan) -> bool {
+    p.nsec3 && p.rewrites.iter().any(|r| matches!(r, Rewrite::ChildZoneProof(_)))
+}
+
+fn b32hex(bytes: &[u8]) -> String {
+    const A: &[u8; 32] = b"0123456789abcdefghijklmnopqrstuv";
+    let mut out = String::new();
+    let (mut acc, mut bits) = (0u32, 0);
+    for b in bytes {
+        acc = (acc << 8) | *b as u32;
+        bits += 8;
+        while bits >= 5 {
+            bits -= 5;
+            out.push(A[((acc >> bits) & 31) as usize] as char);
+        }
+    }
+    if bits > 0 {
+        out.push(A[((acc << (5 - bits)) & 31) as usize] as char);
+    }
+    out
+}
+
+fn bump(h: &[u8], up: bool) -> Vec<u8> {
+    let mut v = h.to_vec();
+    for b in v.iter_mut().rev() {
+        if up {
+            let (x, o) = b.overflowing_add(1);
+            *b = x;
+            if !o {
+                break;
+            }
+        } else {
+            let (x, o) = b.overflowing_sub(1);
+            *b = x;
+            if !o {
+                break;
+            }
+        }
+    }
+    v
+}
+
+/// the attacker's signed child zone: NSEC3-typed RRsets at `<hash>.z.example.` that, read as
+/// records of example., match the apex, cover the next closer name and the apex wildcard of the
+/// victim, and match the victim itself with an empty type bitmap
+fn child_zone_spec(p: &Plan, victim: &Name) -> ZoneSpec {
+    use hickory_proto::dnssec::rdata::NSEC3;
+    use hickory_proto::dnssec::Nsec3HashAlgorithm;
+    let o = n("z.example.");
+    let salt: Vec<u8> = (0..p.salt_len).map(|i| 0xA0 + i).collect();
+    let params = (salt.clone(), p.iterations);
+    let mut records = vec![
+        Record::from_rdata(o.clone(), 300, RData::SOA(SOA::new(n("ns.z.example."), n("admin.z.example."), 1, 3600, 600, 86400, 60))),
+        Record::from_rdata(o.clone(), 300, RData::NS(NS(n("ns.z.example.")))),
+        Record::from_rdata(n("ns.z.example."), 300, RData::A(A::new(192, 0, 2, 54))),
+    ];
+    let apex = n("example.");
+    let mut plant = |owner_hash: Vec<u8>, next: Vec<u8>, types: Vec<RecordType>| {
+        let owner = n(&format!("{}.z.example.", b32hex(&owner_hash)));
+        let rd = NSEC3::new(Nsec3HashAlgorithm::SHA1, false, p.iterations, salt.clone(), next, types);
+        records.push(Record::from_rdata(owner, 300, RData::DNSSEC(DNSSECRData::NSEC3(rd))));
+    };
+    let h_apex = chain_key(&apex, Some(&params));
+    plant(h_apex.clone(), bump(&h_apex, true), vec![RecordType::NS, RecordType::SOA, RecordType::DNSKEY, RecordType::NSEC3PARAM, RecordType::RRSIG]);
+    // next closer name below the apex on the way to the victim
+    let mut next_closer = victim.clone();
+    while next_closer.num_labels() > apex.num_labels() + 1 {
+        next_closer = next_closer.base_name();
+    }
+    let mut covered: Vec<Vec<u8>> = Vec::new();
+    for target in [next_closer, n("*.example."), victim.clone()] {
+        let h = chain_key(&target, Some(&params));
+        if h == h_apex || covered.contains(&h) {
+            continue;
+        }
+        covered.push(h.clone());
+        plant(bump(&h, false), bump(&h, true), vec![RecordType::A, RecordType::RRSIG]);
+    }
+    // the victim "exists" without any type (NODATA variant); owner hash = H(victim)
+    let hv = chain_key(victim, Some(&params));
+    if hv != h_apex {
+        plant(hv.clone(), bump(&bump(&hv, true), true), vec![RecordType::RRSIG, RecordType::NSEC]);
+    }
+    ZoneSpec { origin: o, records, nx: Nx::Nsec, keys: vec![KeyRef::ed(1)], sig_duration_s: 86_400 }
 }
 
 /// a denial RRset with its signatures
@@ -391,7 +486,13 @@ fn gen_rewrite(r: &mut Rng, nsec3: bool) -> Rewrite {
                 Rewrite::RelabelWildcardDenial(r.below(4) as u8)
             }
         }
-        _ => Rewrite::AddAltChain(r.below(16) as u8),
+        _ => {
+            if r.chance(1, 2) {
+                Rewrite::AddAltChain(r.below(16) as u8)
+            } else {
+                Rewrite::ChildZoneProof(r.below(2) as u8)
+            }
+        }
     }
 }
 
@@ -574,6 +675,7 @@ fn rewrite_code(r: Rewrite) -> u64 {
         Rewrite::AddAltChain(_) => 8,
         Rewrite::PredecessorProof => 9,
         Rewrite::RelabelWildcardDenial(_) => 10,
+        Rewrite::ChildZoneProof(_) => 11,
     }
 }
 
@@ -599,9 +701,16 @@ async fn scenario(p: Plan) {
         v
     };
     let alt_harvest = if p.nsec3 && p.rewrites.iter().any(|r| matches!(r, Rewrite::AddAltChain(_))) { harvest(&build_zone(&zone_spec(&p, true))).await } else { vec![] };
-    let world = Arc::new(World { zones: vec![zone] });
-    let router = Router::new(world.clone());
     let victim = Query::new(uname(&p.qname), qtype_of(p.qtype));
+    let mut zones = vec![zone];
+    let mut child_sets: Vec<Denial> = Vec::new();
+    if uses_child_zone(&p) {
+        let child = build_zone(&child_zone_spec(&p, &victim.name));
+        child_sets = harvest(&child).await.into_iter().filter(|d| d.records.iter().any(|r| r.record_type() == RecordType::NSEC3)).collect();
+        zones.push(child);
+    }
+    let world = Arc::new(World { zones });
+    let router = Router::new(world.clone());
     let mut opts = DnsRequestOptions::default();
     opts.use_edns = true;
     opts.edns_set_dnssec_ok = true;
@@ -638,6 +747,8 @@ async fn scenario(p: Plan) {
         let victim2 = victim.clone();
         let harvested = harvested.clone();
         let soa_set = soa_set.clone();
+        let child_sets = child_sets.clone();
+        let hv_label = nsec3_params.as_ref().map(|pr| b32hex(&chain_key(&victim.name, Some(pr))));
         let alt = alt_harvest.clone();
         let applied = applied.clone();
         let donors = donors.clone();
@@ -716,6 +827,28 @@ async fn scenario(p: Plan) {
                                 let mut r = r.clone();
                                 r.name = victim2.name.clone();
                                 m.authorities.push(r);
+                            }
+                        }
+                    }
+                    Rewrite::ChildZoneProof(kind) => {
+                        if !child_sets.is_empty() {
+                            m.answers.clear();
+                            m.authorities.retain(|r| !is_denial(r));
+                            if !m.authorities.iter().any(|r| r.record_type() == RecordType::SOA) {
+                                m.authorities.extend(soa_set.iter().cloned());
+                            }
+                            let is_victim_match = |d: &Denial| hv_label.as_ref().map(|l| d.owner.to_ascii().to_lowercase().starts_with(&format!("{l}."))).unwrap_or(false);
+                            if kind == 0 {
+                                m.metadata.response_code = ResponseCode::NXDomain;
+                                // apex match + covers; a record matching the victim's own hash is left out
+                                for d in child_sets.iter().filter(|d| !is_victim_match(d)) {
+                                    m.authorities.extend(d.records.iter().cloned());
+                                }
+                            } else {
+                                m.metadata.response_code = ResponseCode::NoError;
+                                for d in child_sets.iter().filter(|d| is_victim_match(d)) {
+                                    m.authorities.extend(d.records.iter().cloned());
+                                }
                             }
                         }
                     }
